@@ -865,6 +865,12 @@ theorem translated_poly1305_finish (h : Model.Poly1305.Limbs) (pad0 pad1 : Nat) 
         ++ toLE 8 (Gen.Poly1305.finish h.l0 h.l1 h.l2 pad0 pad1).2 :=
   Proofs.GenPoly1305.finish_eq_model h pad0 pad1
 
+/-- `Model.Poly1305.update` is its own buffering code with the length computation translated from the source plugged in
+(`Proofs.GenPoly1305.updateWith`): for every state and every input -/
+theorem translated_poly1305_update_uses_source_split (st : Model.Poly1305.State) (input : Bytes) :
+    Proofs.GenPoly1305.updateWith Gen.Poly1305.update_full_blocks_end st input = Model.Poly1305.update st input :=
+  Proofs.GenPoly1305.updateWith_translated_eq_model st input
+
 /-- the one length computation of `Poly1305::update` (where the whole blocks of the input end), translated from
 /repo/src/poly1305/poly1305_soft.rs on every run, is `m.len() − m.len() mod 16` for every length — as in the model, with no word
 width involved (inputs of 4 GiB and more included; the run reaches them only in the thorough tier, op `poly1305_huge`) -/
